@@ -69,7 +69,7 @@ func NewRunFS(R *vcommon.Report, prop string, k Knobs, caseIdx int, rng *rand.Ra
 		r.fail("open-error", "Open: %v", err)
 		return r
 	}
-	r.db = db
+	r.setDB(db)
 	r.log("open cfg=%+v", r.Cfg)
 	return r
 }
@@ -163,14 +163,14 @@ func (r *Run) closeAll() {
 			b.b.Close()
 		}
 		r.db.Close()
-		r.db = nil
+		r.setDB(nil)
 		return
 	}
 	r.quiesce()
 	if err := r.db.Close(); err != nil {
 		r.fail("close-error", "DB.Close: %v", err)
 	}
-	r.db = nil
+	r.setDB(nil)
 	if r.fileCache != nil {
 		r.fileCache.Unref()
 		r.fileCache = nil
@@ -1009,7 +1009,7 @@ func (r *Run) stepReopen() {
 	// DisableWAL histories lose unflushed writes by design; the harness
 	// flushes before closing in that configuration (done below via model
 	// consistency: we flush first).
-	r.db = nil
+	r.setDB(nil)
 	fmv := r.Cfg.FMV
 	r.opts = MakeOptions(r.Cfg, r.fs, r.Ev)
 	r.opts.FormatMajorVersion = pebble.FormatMajorVersion(fmv)
@@ -1023,7 +1023,7 @@ func (r *Run) stepReopen() {
 		r.fail("reopen-error", "Open: %v", err)
 		return
 	}
-	r.db = db
+	r.setDB(db)
 	r.count("reopens", 1)
 	r.audit("after-reopen")
 }
